@@ -7,11 +7,13 @@ def main(tier, seed):
     c = Check("C14", tier, seed)
     jobs = [("props.values", "roundtrip", ("C14", sh)) for sh in ("int", "array", "object", "string", "bool", "null")]
     jobs.append(("props.values", "templates", ("C14",)))
+    jobs.append(("props.values", "float_out", ("C14",)))
     c.run_jobs(jobs)
     return c.finish(
         rule="values: the real ActValue::into_js and ActValue::from_js run on JSON values (scalar, array, nested object) whose integer leaf is one z3 variable n with |n| <= 2^53; "
-             "'from_js(into_js(v)) equals v numerically' is a validity query (the i32 cast is a 64->32 bit wrap in the encoding). templates: the real fill_params / get_exprs on a bounded "
+             "'from_js(into_js(v)) equals v numerically' is a validity query (the i32 cast is a 64->32 bit wrap in the encoding). doubles leaving the script engine: from_js on a z3 real f = k or k + 1/2 with |k| <= 10^30 arrives numerically "
+             "unchanged (float -> int `as` saturates in the encoding, as in Rust). templates: the real fill_params / get_exprs on a bounded "
              "set of template strings (0..3 expressions, with and without surrounding text, repeated expressions, values containing '$') with the variables of the modelled script fragment",
-        assumptions=ASSUME + ["QuickJS is modelled as preserving what it is handed (32-bit ints, doubles, strings, arrays, objects); floats are not symbolic; unicode normalisation is not modelled",
+        assumptions=ASSUME + ["QuickJS is modelled as preserving what it is handed (32-bit ints, doubles, strings, arrays, objects); doubles are exact reals in the encoding (rounding of literals is not modelled); unicode normalisation is not modelled",
                              "templates: example strings, not a solver-quantified family"],
-        bounds=dict(integer="|n| <= 2^53", shapes=["int", "array", "object", "string", "bool", "null"], templates=11))
+        bounds=dict(integer="|n| <= 2^53", double_out="|k| <= 10^30, integral or k + 1/2", shapes=["int", "array", "object", "string", "bool", "null"], templates=11))
